@@ -31,10 +31,10 @@ META = {
 
 def check(ctx):
     ctx.consult('plssdesc/plss_parse.py', 'plssdesc/plssdesc.py', 'rgxlib/sec.py')
-    check_dispatch(ctx)
-    _colon(ctx)
-    _sec_within(ctx)
-    _segment(ctx)
+    ctx.attempt(check_dispatch)
+    ctx.attempt(_colon)
+    ctx.attempt(_sec_within)
+    ctx.attempt(_segment)
 
 
 def _colon(ctx):
@@ -50,7 +50,7 @@ def _colon(ctx):
                   f"need_colon is consulted in `{norm(st)[:70]}`: colon modes can change the result even when "
                   f"every section has its colon", key="TBL|SecFinder|need_colon-use", where=common.loc(fi, u))
     ms = ctx.fold.get('rgxlib.sec', 'multisec_regex')
-    _inc(ctx, 'RX-LANG', 'multisec_regex', F.MULTISEC, ms, 'section lists with optional (spaced) colon')
+    ctx.attempt(_inc, 'RX-LANG', 'multisec_regex', F.MULTISEC, ms, 'section lists with optional (spaced) colon')
     L = common.lang(ctx, ms)
     for s in ('Sec 14:', 'Section 14 :', 'Sec 1 - 3:', 'Sections 1, 2 and 5:'):
         ctx.check(L.fullmatch(s), 'RX-LANG', f"multisec_regex takes the colon of {s!r} into the match",
